@@ -67,15 +67,55 @@ def run(run):
             return zi, "recursion limit"
         return zi, None
 
+    callers_cache = {}
+
+    def local_callers(fn):
+        """crate-local functions (closures mapped to their function) that call fn"""
+        if fn["path"] not in callers_cache:
+            out = []
+            for g in F.raw["fns"]:
+                if g.get("dk") not in ("Fn", "AssocFn") or g is fn or g.get("expn"):
+                    continue
+                for n in T.walk_fn(F, g):
+                    if n.get("k") == "Call" and (F.by_path.get(n.get("r") or "") is fn or F.by_path.get(n.get("f") or "") is fn):
+                        out.append(g)
+                        break
+            callers_cache[fn["path"]] = out
+        return callers_cache[fn["path"]]
+
+    interp_cache = {}
+
+    def interp_cached(fn):
+        if fn["path"] not in interp_cache:
+            interp_cache[fn["path"]] = interp_fn(fn)
+        return interp_cache[fn["path"]]
+
     def report(rule, kind, fns, floor_name, floor):
         total = 0
         for fn in fns:
-            zi, err = interp_fn(fn)
+            zi, err = interp_cached(fn)
             by_site = {}
             for ob in zi.obligations:
                 if ob.kind != kind:
                     continue
                 by_site.setdefault(id(ob.site), []).append(ob)
+            # a private helper is not an entry point of the pass: its parameters are not "any well-sized input" but what its
+            # callers hand over. Its sites are judged in the context of every caller (the interpreter inlines the helper);
+            # the stand-alone verdict counts only if no caller reaches the site.
+            if fn.get("vis") != "Public" and local_callers(fn):
+                ctx_sites = {}
+                for g in local_callers(fn):
+                    zg, _e = interp_cached(g)
+                    for ob in zg.obligations:
+                        if ob.kind == kind and id(ob.site) in by_site:
+                            ctx_sites.setdefault(id(ob.site), []).append(ob)
+                for sid, obs in ctx_sites.items():
+                    by_site[sid] = obs
+                for sid in list(by_site):
+                    if sid not in ctx_sites:
+                        # not reached through any caller's interpretation: nothing can be said from the helper alone
+                        for ob in by_site[sid]:
+                            ob.helper_only = True
             if err:
                 run.undecided(rule, "%s|interpreter" % fn["name"], "not interpreted completely: %s" % err, F.loc(fn["body"]))
             # stable per-function numbering of sites in source order
@@ -83,7 +123,7 @@ def run(run):
             for i, obs in enumerate(order):
                 total += 1
                 site = obs[0].site
-                vs = [ob.verdict() for ob in obs]
+                vs = [ob.verdict() if not getattr(ob, "helper_only", False) else (("undecided", "site in a private helper that no caller's interpretation reaches; " + ob.verdict()[1]) if ob.verdict()[0] != "holds" else ob.verdict()) for ob in obs]
                 bad = [(ob, v) for ob, v in zip(obs, vs) if v[0] == "violated"]
                 und = [(ob, v) for ob, v in zip(obs, vs) if v[0] == "undecided"]
                 key = "%s|%s#%d" % (fn["name"], kind, i)
